@@ -81,7 +81,7 @@ func setClientSubnet(req *bfe_basic.Request, dnsMsg *dns.Msg) {
 
 	var family uint16 = 1
 	var sourceNetmask uint8 = 32
-	if cip.To16() != nil {
+	if cip.To4() == nil && cip.To16() != nil { // To16() alone is non-nil for every IPv4 address
 		family = 2
 		sourceNetmask = 128
 	}
